@@ -175,7 +175,7 @@ fn non_ids() -> Vec<String> {
 
 pub fn run(tier: Tier) -> i32 {
     let mut run = Run::new("C15", tier, "exploration");
-    run.rule = "all units of units.txt (parsed by the harness) x all their ids: pointer-identical lookup, table agreement, Zinc text `m id` in 6 spellings; 16 magnitudes through both codecs — Zinc, Hayson to_string/from_str, to_value/from_value, the member-sorted text, the typed Number — and in five positions (list element, dict value followed by another tag, grid meta, column meta, last cell of a row); every non-id string (length<=3 over the unit alphabet, every 1-edit of an id) must not be found; non-trivial = distinct id / non-id string".into();
+    run.rule = "all units of units.txt (parsed by the harness) x all their ids: pointer-identical lookup, table agreement, Zinc text `m id` in 6 spellings; 16 magnitudes through both codecs — Zinc, Hayson to_string/from_str, to_value/from_value, the member-sorted text, the typed Number — and in five positions (list element, dict value followed by another tag, grid meta, column meta, last cell of a row); every ordered pair of identifiers as two numbers in one document (list and dict); two different database entries never compare equal (as units or inside Numbers); every non-id string (length<=3 over the unit alphabet, every 1-edit of an id) must not be found; non-trivial = distinct id / non-id string".into();
     run.assume("unit-gen/units.txt is the unit database of record");
     crate::engine::quiet_panics();
     let d = db();
@@ -191,6 +191,64 @@ pub fn run(tier: Tier) -> i32 {
         if !d.by_id.contains_key(k) {
             run.stats.fail("extra-id", json!({"id": k, "stage": "extra-id"}), format!("library knows {k:?}, units.txt does not"));
         }
+    }
+    // two units in one document: `[5<id1>,7<id2>,{a:1<id1> b:2<id2>}]` for ALL ordered pairs of
+    // identifiers (a unit text that is a prefix of the one before it, a parser that remembers …)
+    {
+        let ids: Vec<(String, usize)> = d.by_id.iter().map(|(k, v)| (k.clone(), *v)).collect();
+        let l = par_for(ids.len(), |i, local| {
+            let (a, ia) = &ids[i];
+            for (b, ib) in &ids {
+                local.eval();
+                let t = format!("[5{a},7{b},{{x:1{a} y:2{b}}}]");
+                let ok = match guarded(|| from_str(&t)) {
+                    Ok(Ok(Value::List(l))) if l.len() == 3 => {
+                        let unit_is = |v: &Value, want: usize| matches!(v, Value::Number(n) if n.unit.map_or(false, |u| u.ids == d.units[want].ids));
+                        let inner = match &l[2] {
+                            Value::Dict(dd) => dd.get("x").map_or(false, |v| unit_is(v, *ia)) && dd.get("y").map_or(false, |v| unit_is(v, *ib)),
+                            _ => false,
+                        };
+                        unit_is(&l[0], *ia) && unit_is(&l[1], *ib) && inner
+                    }
+                    _ => false,
+                };
+                if !ok {
+                    local.fail(&format!("two-units-in-one-document:{}", id_class(b)), json!({"unit_index": ia, "id": a, "other": b, "stage": "two-units-in-one-document"}), format!("{t:?} does not decode to numbers in {a:?} and {b:?}: {:?}", guarded(|| from_str(&t).map(|v| format!("{v:?}").chars().take(300).collect::<String>()))));
+                }
+            }
+            local.count("unit-pair-documents");
+        });
+        run.absorb(l);
+    }
+    // two different entries of the database are different units: as Unit values and inside Numbers
+    {
+        let units: Vec<&'static Unit> = d.units.iter().filter_map(|r| get_unit(&r.ids[0])).collect();
+        let l = par_for(units.len(), |i, local| {
+            for (j, b) in units.iter().enumerate() {
+                local.eval();
+                let a = units[i];
+                let same_entry = i == j;
+                let na = Value::Number(Number { value: 5.0, unit: Some(a) });
+                let nb = Value::Number(Number { value: 5.0, unit: Some(b) });
+                if (a == *b) != same_entry || (na == nb) != same_entry {
+                    local.fail(&format!("distinct-units-compare-equal:{}", id_class(a.ids.last().unwrap())), json!({"unit_index": i, "id": a.ids[0], "other": b.ids[0], "stage": "distinct-units-compare-equal"}), format!("{:?} == {:?} is {} (Numbers: {})", a.ids, b.ids, a == *b, na == nb));
+                }
+            }
+        });
+        run.absorb(l);
+    }
+    // history independence of look-up and of number decoding: every ordered pair of identifiers
+    {
+        let ids: Vec<String> = d.by_id.keys().cloned().collect();
+        let op = |id: &String| -> String {
+            let u = get_unit(id).map(|u| u as *const Unit as usize);
+            let t = format!("[5{id},{{a:7{id} b}}]");
+            let z = from_str(&t).map(|v| format!("{v:?}")).map_err(|e| e.to_string());
+            let j = serde_json::from_str::<Value>(&format!("{{\"_kind\":\"number\",\"val\":5,\"unit\":{}}}", serde_json::to_string(id).unwrap())).map(|v| format!("{v:?}")).map_err(|e| e.to_string());
+            format!("{u:?}|{z:?}|{j:?}")
+        };
+        let l = super::common::history_pairs("unit-lookup", &ids, &op, &|id: &String| json!(id));
+        run.absorb(l);
     }
     let non = non_ids();
     run.note("non_identifier_strings", json!(non.len()));
@@ -211,6 +269,34 @@ pub fn run(tier: Tier) -> i32 {
 
 pub fn replay(case: &J) -> Verdict {
     let mut l = Local::new();
+    if case["stage"] == "two-units-in-one-document" || case["stage"] == "distinct-units-compare-equal" {
+        let (a, b) = (case["id"].as_str().unwrap_or(""), case["other"].as_str().unwrap_or(""));
+        let d = db();
+        if case["stage"] == "distinct-units-compare-equal" {
+            let (ua, ub) = (get_unit(a), get_unit(b));
+            return match (ua, ub) {
+                (Some(ua), Some(ub)) if ua.ids != ub.ids && ua == ub => Err((format!("distinct-units-compare-equal:{}", id_class(ua.ids.last().unwrap())), format!("{:?} == {:?}", ua.ids, ub.ids))),
+                _ => Ok(()),
+            };
+        }
+        let t = format!("[5{a},7{b},{{x:1{a} y:2{b}}}]");
+        let (ia, ib) = (d.by_id.get(a).copied(), d.by_id.get(b).copied());
+        let ok = match (guarded(|| from_str(&t)), ia, ib) {
+            (Ok(Ok(Value::List(l))), Some(ia), Some(ib)) if l.len() == 3 => {
+                let unit_is = |v: &Value, want: usize| matches!(v, Value::Number(n) if n.unit.map_or(false, |u| u.ids == d.units[want].ids));
+                let inner = match &l[2] {
+                    Value::Dict(dd) => dd.get("x").map_or(false, |v| unit_is(v, ia)) && dd.get("y").map_or(false, |v| unit_is(v, ib)),
+                    _ => false,
+                };
+                unit_is(&l[0], ia) && unit_is(&l[1], ib) && inner
+            }
+            _ => false,
+        };
+        return if ok { Ok(()) } else { Err((format!("two-units-in-one-document:{}", id_class(b)), t)) };
+    }
+    if case["history_pair"].is_string() {
+        return Err(("history-changes-output:unit-lookup".into(), "re-run ./check C15 quick".into()));
+    }
     if let Some(i) = case["unit_index"].as_u64() {
         check_unit(i as usize, &mut l);
         let stage = case["stage"].as_str().unwrap_or("");
